@@ -95,9 +95,22 @@ ActFramer(c) == IF c.aux THEN [t |-> "clone", n |-> c.F, g |-> c.tag] ELSE Nm("f
 ActFrame(c) == Nm("frame", IF c.aux THEN c.s1 ELSE c.f1)
 MainFramer(c) == Nm("framer", c.F)
 MainFrame(c) == Nm("frame", c.f1)
-\* nameToPath: `do .. as work horse` is actor WorkHorse, node path work.horse; put is poke.direct, a need need.direct
+\* The name of a deed written `as tok1 tok2 ..` is the camel case of its tokens (each token capitalised, buildDo) and
+\* nameToPath turns every upper case letter into the start of a new lower case path segment: every token that starts
+\* with a letter is its own segment - also a one letter token in front of another (as n gauge -> n.gauge, never ngauge) -
+\* and a token that starts with a digit stays glued to the segment before it (as gauge b 2 c -> gauge.b2.c).
+\* put is the actor poke.direct, a need need.direct.  Segments of a deed's name: the first is the renamable name
+\* (t = "actor"), the others t = "apart"; the last one carries g = "last" (the harness numbers deed instances there).
+DigitTokens == {"2", "7"}
+RECURSIVE NameSegs(_, _)
+NameSegs(tokens, acc) ==
+    IF tokens = <<>> THEN acc
+    ELSE IF tokens[1] \in DigitTokens /\ acc # <<>>
+         THEN NameSegs(Tail(tokens), [acc EXCEPT ![Len(acc)] = @ \o tokens[1]])
+         ELSE NameSegs(Tail(tokens), Append(acc, tokens[1]))
 ActorParts(a) ==
-    CASE a.verb = "do" -> <<Nm("actor", a.an[1])>> \o Lits(Tail(a.an))
+    CASE a.verb = "do" -> LET ss == NameSegs(a.an, <<>>) IN
+                          [i \in DOMAIN ss |-> [t |-> IF i = 1 THEN "actor" ELSE "apart", n |-> ss[i], g |-> IF i = Len(ss) THEN "last" ELSE ""]]
       [] a.verb = "need" -> Lits(<<"need", "direct">>)
       [] OTHER -> Lits(<<"poke", "direct">>)
 
@@ -216,16 +229,21 @@ DeedRefs(c) == {Ref("inode", <<>>, "-", "-", "-"), Ref("root", <<"x">>, "-", "-"
                 Ref("me", <<"x">>, "-", "-", "-"), Ref("abs", <<"a", "x">>, "-", "-", "-"), Ref("framer", <<"x">>, "me", "-", "-")}
                \cup (IF c.aux THEN {Ref("framer", <<"x">>, "main", "-", "-")} ELSE {})
 Deed(an, ai, r) == [verb |-> "do", an |-> an, ai |-> ai, ref |-> r]
+\* deed names of several tokens, with one letter tokens in front, and siblings spelled with the same letters unsplit
+ManyTokenNames == {<<"work", "horse">>, <<"n", "gauge">>, <<"s", "w", "gauge">>, <<"gauge", "b", "2", "c">>, <<"ngauge">>, <<"swgauge">>}
 DeedActs(c) == {Deed(<<c.A>>, ai, r) : ai \in Inodes(AIs, "qa"), r \in DeedRefs(c)}
-               \cup {Deed(<<"work", "horse">>, ai, r) : ai \in Inodes(AIs \cap {"none", "frame"}, "qa"),
-                                                       r \in {Ref("inode", <<>>, "-", "-", "-"), Ref("root", <<"x">>, "-", "-", "-")}}
+               \cup {Deed(<<"work", "horse">>, ai, Ref("root", <<"x">>, "-", "-", "-")) : ai \in Inodes(AIs \cap {"none", "frame"}, "qa")}
+               \cup {Deed(an, ai, r) : an \in ManyTokenNames, ai \in Inodes(AIs \cap {"none"}, "qa"),
+                                       r \in {Ref("inode", <<>>, "-", "-", "-"),                 \* default inode ..actor.me when no inode at all
+                                               Ref("actor", <<"x">>, "me", "me", "me")}}      \* per k framer.me.frame.me.actor.me.x
 ActsIn(c) == {a \in PlainActs(c) \cup DeedActs(c) : Resolvable(c, a)}
 
 \* ---------------------------------------------------------------- renaming one name to a fresh name
 \* rho = [kind, old]: kind in framer / frame / actor / tag
 Renamings(c) == {[kind |-> "framer", old |-> n] : n \in {c.F, c.G, c.S}}
                 \cup {[kind |-> "frame", old |-> n] : n \in {c.f0, c.f1, c.g1, c.s0, c.s1}}
-                \cup {[kind |-> "tag", old |-> c.tag], [kind |-> "actor", old |-> c.A], [kind |-> "actor", old |-> "work"]}
+                \cup {[kind |-> "tag", old |-> c.tag], [kind |-> "actor", old |-> c.A], [kind |-> "actor", old |-> "work"], [kind |-> "actor", old |-> "n"],
+                      [kind |-> "actor", old |-> "s"]}
 
 Ren(rho, kind, n) == IF rho.kind = kind /\ n = rho.old THEN Fresh ELSE n
 RenCtx(rho, c) == [c EXCEPT !.F = Ren(rho, "framer", @), !.G = Ren(rho, "framer", @), !.S = Ren(rho, "framer", @),
